@@ -97,9 +97,9 @@ def label_of(step):
     return "%s(%s)" % (step["act"], ",".join(('"%s"' % a) if isinstance(a, str) else str(a) for a in step["args"]))
 
 
-def cfg_text(name, **subst):
-    """Text of spec/ProxySession/<name> with `Const = value` lines replaced."""
-    with open(os.path.join(SPECDIR, name)) as fh:
+def cfg_text(name, _specdir=None, **subst):
+    """Text of spec/ProxySession/<name> (or of _specdir/<name>) with `Const = value` lines replaced."""
+    with open(os.path.join(_specdir or SPECDIR, name)) as fh:
         txt = fh.read()
     for k, v in subst.items():
         txt, n = re.subn(r"(?m)^(\s*%s\s*=\s*).*$" % re.escape(k), lambda m: m.group(1) + str(v), txt)
@@ -163,11 +163,11 @@ class Graph:
         return [parse_label(l) for l in labs]
 
 
-def dump_graph(chk, cfgname, **subst):
-    txt = cfg_text(cfgname, **subst)
+def dump_graph(chk, cfgname, _specdir=None, _module="ProxySession", **subst):
+    txt = cfg_text(cfgname, _specdir=_specdir, **subst)
     name = "Dump_%s.cfg" % "_".join("%s%s" % (k, re.sub(r"\W", "", str(v))[:8]) for k, v in sorted(subst.items()))
     dot = os.path.join(vlib.scratch("dot"), name + ".dot")
-    r = vlib.tlc(SPECDIR, "ProxySession", name, workers=4, timeout=600, files={name: txt}, dump_dot=dot, keep_prints=False)
+    r = vlib.tlc(_specdir or SPECDIR, _module, name, workers=4, timeout=600, files={name: txt}, dump_dot=dot, keep_prints=False)
     chk.add_tlc(r)
     if r.error:
         raise vlib.Inconclusive("graph dump %s: TLC reported %s" % (name, r.error))
@@ -224,16 +224,16 @@ _tv_lock = threading.Lock()
 _tv_seq = [0]
 
 
-def tlc_safe(module, cfgname, cfgtxt=None, data=None, workers=1, coverage=False, timeout=900):
+def tlc_safe(module, cfgname, cfgtxt=None, data=None, workers=1, coverage=False, timeout=900, specdir=None):
     """Thread-safe TLC run on a private copy of spec/ProxySession (vlib.tlc
     numbers its scratch directories with an unlocked counter, so everything
     that runs next to the main thread goes through here)."""
     with _tv_lock:
         _tv_seq[0] += 1
         d = vlib.scratch("tv-%d" % _tv_seq[0])
-    for f in os.listdir(SPECDIR):
+    for f in os.listdir(specdir or SPECDIR):
         if f.endswith(".tla") or f == cfgname:
-            shutil.copy(os.path.join(SPECDIR, f), d)
+            shutil.copy(os.path.join(specdir or SPECDIR, f), d)
     if cfgtxt is not None:
         with open(os.path.join(d, cfgname), "w") as fh:
             fh.write(cfgtxt)
